@@ -18,7 +18,8 @@ REQUIRED_THEOREMS = [
     'getIn_of_mem_dictToPaths', 'normalize_append_normalize', 'normalize_append_clean',
     'normalize_right_leg_fails', 'dictToPaths_pathsToDict_single_partial',
     'dictToPaths_pathsToDict_dict_value_witness', 'dictToPaths_pathsToDict_distinct_heads_partial',
-    'dictToPaths_pathsToDict_shared_head_regroups',
+    'dictToPaths_pathsToDict_shared_head_regroups', 'dictToPaths_pathsToDict_perm',
+    'dictToPaths_pathsToDict_prefix_witness',
 ]
 ANCHORS = [
     ('vivarium/core/store.py', ['Store.add_node']),
@@ -575,8 +576,9 @@ LEVEL_TEXT = ('Lean 4 theorems, for all trees and all paths (unbounded): walking
               'correspondence check of every helper and of real Store navigation (node identity).')
 LEVEL_NOTE = ('Trusted: Lean kernel; axioms ⊆ {propext, Classical.choice, Quot.sound}; the hand-written model '
               'of topology.py/store.py navigation, validated by differential runs (exhaustive over a small '
-              'family in the thorough tier). The inverse law is proved in the direction dictionary -> paths -> dictionary; '
-              'the converse is proved for a single path and for lists of paths with pairwise distinct first keys (dictToPaths_pathsToDict_single_partial, ..._distinct_heads_partial) and, for prefix-free lists sharing first keys, checked by the oracle only. Process '
+              'family in the thorough tier). The inverse law is proved in both directions: dictionary -> paths -> dictionary '
+              '(pathsToDict_dictToPaths) and, for every prefix-free list of paths, paths -> dictionary -> paths up to '
+              'the grouping of common prefixes (dictToPaths_pathsToDict_perm; with the order kept for distinct first keys). Process '
               'nodes on the route are out of scope.')
 TECHNIQUE = 'Lean 4 proof by induction over paths + model/code correspondence (differential)'
 
